@@ -31,6 +31,9 @@ CLAIMS = {
  'C06': ('model_checking',
    "TLA+ spec SigIfaces states for every signing interface and every applicable verification interface which octets are hashed (composed from the TextCanon and Cleartext operators) and TLC checks equality for every text <=6 symbols over {dash, space, tab, CR, LF, other} (sensitivity: untrimmed cleartext signer => Complete violated); the TextCanon machines are model-checked in the same run. TLC emits every text <=4 (thorough 5) and the applicability matrix and evaluates the oracle on random long texts with CR/LF at the 512/8192 edges; the harness runs each through all signing interfaces (detached, SignatureConfig, chunked hasher, builder 1..3 signers x binary|text x binary|utf8, cleartext) and all verification interfaces incl. binary/armored round trips, rotating Ed25519 v4/v6, ECDSA, RSA x three hashes, with 8 representatives of 'other' incl. blank look-alikes; plus certificate self-signatures.",
    'DESIGN.md 5/C06', TECH),
+ 'C18': ('model_checking',
+   "TLA+ spec Ring (ESK lists with named/real recipients incl. wildcards and decoys, presented keys with lock states, message passwords, session keys, abort_early; Intended = set of outcomes the property allows; Proc = the loops of find_session_key/try_decrypt with the v4-SKESK plausibility as nondeterminism) is model-checked: Proc within Intended on all 48 384 configurations of the bound (thorough: 3 keys), with a sensitivity run (no cross-group comparison => violated, which is the defect repaired by 780bb0d); TLC emits every configuration with its allowed outcomes and the harness realises them with real keys (ECDH/X25519/X448, locked copies), hand-assembled PKESK v3/v6 and SKESK v4/v6 packets and runs decrypt_the_ring + read_to_end.",
+   'DESIGN.md 5/C18', TECH),
 }
 checks = []
 for p in props:
